@@ -465,6 +465,59 @@ fn batch_compact<L: Len>(ctx: &mut Ctx, lens: &[usize]) {
 }
 
 // ------------------------------------------------------------------------------------------------
+// `[E]` / `str` allocated DIRECTLY through the crate's own `SlicePtrMeta` / `StrPtrMeta` (the public per-value
+// metadata API, not the slice builders): the layout comes from `<SlicePtrMeta as AllocMeta<[E], M>>::layout`.
+// ------------------------------------------------------------------------------------------------
+fn batch_direct_slice<E: Plain>(ctx: &mut Ctx, lens: &[usize]) {
+    use gc_arena::slice::SlicePtrMeta;
+    let (es, ea) = (size_of::<E>(), align_of::<E>());
+    println!("CASE direct slice (SlicePtrMeta) e={},{}", es, ea);
+    let base = keep_len(ctx, lens.len());
+    let mut recs: Vec<Rec> = Vec::with_capacity(lens.len());
+    {
+        let Ctx { arena, st } = ctx;
+        for &len in lens {
+            if es.saturating_mul(len) > st.max_bytes {
+                continue;
+            }
+            let mut r = new_rec(st, format!("D {} {}", es, log2(ea)), true, usize_meta(), len);
+            r.val_size = es * len;
+            r.val_align = ea;
+            r.keep_index = base + recs.len();
+            arena.mutate_root(|mc, root| {
+                talloc::log_start();
+                let mut builder = unsafe { GcBuilder::<[E], (), SlicePtrMeta>::new_with_type_and_ptr_meta::<UnitTypeMeta>(len) };
+                let sp = builder.as_ptr();
+                r.addr = sp as *mut u8 as usize;
+                let d = rec_desc(&r);
+                if sp.len() != len {
+                    st.viol(&d, &format!("builder pointer has length {} for metadata {}", sp.len(), len));
+                }
+                let writable = place(st, &mut r);
+                check_logged(st, &r, "GcBuilder::<[E], (), SlicePtrMeta>::new_with_type_and_ptr_meta");
+                talloc::log_stop();
+                unsafe { fill(r.addr as *mut u8, writable, r.obj) };
+                let gc = unsafe { builder.assume_init(mc) };
+                let p: *const [E] = Gc::as_ptr(gc);
+                if p as *const u8 as usize != r.addr || p.len() != len {
+                    st.viol(&d, &format!("Gc::as_ptr = ({:#x}, len {}) expected ({:#x}, len {})", p as *const u8 as usize, p.len(), r.addr, len));
+                }
+                let back: *const [E] = Gc::as_ptr(Gc::as_fat(Gc::as_thin(gc)));
+                if back as *const u8 as usize != r.addr || back.len() != len {
+                    st.viol(&d, "as_thin/as_fat round trip changed the pointer or the length");
+                }
+                root.keep.push(Gc::erase(gc));
+            });
+            recs.push(r);
+        }
+    }
+    for round in 0..3 {
+        collect_and_check(ctx, &recs, round, true);
+    }
+    release_and_report_opt(ctx, &recs, base, false);
+}
+
+// ------------------------------------------------------------------------------------------------
 // slices
 // ------------------------------------------------------------------------------------------------
 fn usize_meta() -> (usize, usize) {
@@ -964,6 +1017,13 @@ fn run_all(thorough: bool, seed: u64) -> (usize, usize) {
     ] {
         guarded(ctx, name, |c| f(c, &[0, 1, 5, 13, 200, 255, 256, 4099]));
     }
+
+    guarded(ctx, "direct slice u8", |c| batch_direct_slice::<u8>(c, &[0, 1, 5, 13, 200]));
+    guarded(ctx, "direct slice u16", |c| batch_direct_slice::<u16>(c, &[0, 1, 5, 13, 200]));
+    guarded(ctx, "direct slice u64", |c| batch_direct_slice::<u64>(c, &[0, 1, 5, 13, 200]));
+    guarded(ctx, "direct slice A16<16>", |c| batch_direct_slice::<A16<16>>(c, &[0, 1, 3, 17]));
+    guarded(ctx, "direct slice A32<32>", |c| batch_direct_slice::<A32<32>>(c, &[0, 1, 3, 17]));
+    guarded(ctx, "direct slice A4<12>", |c| batch_direct_slice::<A4<12>>(c, &[0, 1, 2, 9]));
 
     // rejected requests
     reject_swh::<(), A1<1>>(ctx, "T", 1);
